@@ -1,10 +1,18 @@
 /-
   The pilot-signal matrix of the simulator — transcription of
-  `_increase_width` (simulator.py:537-552) and `Simulator._update_schedules`
-  (simulator.py:240-301) without the feasibility warning (which has no effect on state).
+  `_increase_width` (simulator.py:537-552), `Simulator._update_schedules`
+  (simulator.py:230-301) without the feasibility warning (simulator.py:264-282: it only
+  warns, no effect on state), the growth done by `run()` in every period
+  (simulator.py:135-140) and the column read by `ChargingNetwork.update_pilots`
+  (charging_network.py:403-428).
 
   A matrix is a list of rows (one per station, in `network.station_ids` order), all of the same
-  width.  A schedule is an association list `station ↦ row` in the dict's insertion order.
+  width.  A schedule is an association list `station ↦ row` in the dict's insertion order
+  (a Python dict: keys are pairwise distinct).
+
+  The values are never computed with: every definition works for any carrier `K` with a zero.
+  Also here: the SPECIFICATION `pilotAt` of property C04 (so that the driver can execute it
+  next to the matrix operations).
 -/
 import AcnModel.Num
 
@@ -16,21 +24,29 @@ abbrev Matrix (K : Type) := List (List K)
 inductive Err | keyError | invalidSchedule
   deriving DecidableEq, Repr
 
+/-- A schedule as handed to `_update_schedules`: dict `station ↦ list of pilots`, in insertion order. -/
+abbrev Sched (K : Type) := List (String × List K)
+
 section
 variable {K : Type} [OfNat K 0]
 
-/-- width of the matrix = length of its first row (numpy `shape[1]`); a matrix with no
-    rows is given an explicit width by the caller, see `Mat`. -/
+/-- width of the matrix = numpy `shape[1]`; kept explicitly because a matrix with no
+    rows (a network without stations) still has a width. -/
 structure Mat (K : Type) where
   rows : List (List K)
   width : Nat
 
+/-- `np.zeros((n, w))` (simulator.py:66) -/
 def Mat.zeros (n w : Nat) : Mat K := ⟨List.replicate n (List.replicate w 0), w⟩
 
 /-- read through `getD … 0`: growth is invisible to readers -/
 def Mat.get (m : Mat K) (i t : Nat) : K := (m.rows.getD i []).getD t 0
 
-/-- simulator.py:537-552 -/
+/-- the shape invariant of `pilot_signals`: `n` rows, each exactly `width` long -/
+def Mat.WF (n : Nat) (m : Mat K) : Prop := m.rows.length = n ∧ ∀ r ∈ m.rows, r.length = m.width
+
+/-- simulator.py:537-552: `if target_width <= a.shape[1]: return a`; otherwise a fresh zero
+    matrix of the target width whose first `a.shape[1]` columns are `a`. -/
 def increaseWidth (m : Mat K) (target : Nat) : Mat K :=
   if target ≤ m.width then m
   else ⟨m.rows.map (fun r => r ++ List.replicate (target - r.length) 0), target⟩
@@ -40,36 +56,158 @@ def increaseWidth (m : Mat K) (target : Nat) : Mat K :=
 def writeRow (row : List K) (t : Nat) (blk : List K) : List K :=
   row.take t ++ blk ++ row.drop (t + blk.length)
 
+/-- `pilot_signals[:, t : t+len] = schedule_matrix` (simulator.py:284-286, 298-300) -/
+def writeBlock (m : Mat K) (t : Nat) (dense : List (List K)) : Mat K :=
+  ⟨List.zipWith (fun row blk => writeRow row t blk) m.rows dense, m.width⟩
+
 /-- dense schedule matrix in station order, zero rows for omitted stations
     (simulator.py:256-263) -/
-def densify (stations : List String) (sched : List (String × List K)) (len : Nat) : List (List K) :=
+def densify (stations : List String) (sched : Sched K) (len : Nat) : List (List K) :=
   stations.map fun st =>
     match sched.lookup st with
     | some row => row
     | none => List.replicate len 0
 
-/-- number of distinct row lengths > 1 ? (simulator.py:252-254) -/
-def ragged (sched : List (String × List K)) : Bool :=
+/-- more than one distinct row length?  (simulator.py:251-253: `len(set(len(x) …)) > 1`) -/
+def ragged (sched : Sched K) : Bool :=
   match sched with
   | [] => false
   | (_, r) :: rest => rest.any (fun p => p.2.length != r.length)
 
-/-- simulator.py:240-301.  `t` = current iteration, `lastTs` = `event_queue.get_last_timestamp()`
-    (`none` when the queue is empty). -/
+/-- `schedule_lengths.pop()` (simulator.py:254) for a non-ragged schedule; 0 for `{}` -/
+def schedLen (sched : Sched K) : Nat :=
+  match sched with
+  | [] => 0
+  | (_, r) :: _ => r.length
+
+/-- some key of the schedule is not a registered station (simulator.py:243-249) -/
+def unknownStation (stations : List String) (sched : Sched K) : Bool :=
+  sched.any (fun p => !stations.contains p.1)
+
+/-- the target of the growth inside `_update_schedules` (simulator.py:289-296, after the fix of
+    F2: an empty queue counts as horizon 0) -/
+def growTarget (t : Nat) (lastTs : Option Nat) (len : Nat) : Nat :=
+  Nat.max (match lastTs with | some l => l + 1 | none => 0) (t + len)
+
+/-- simulator.py:230-301.  `t` = current iteration, `lastTs` = `event_queue.get_last_timestamp()`
+    (`none` when the queue is empty).  Order of checks as in the source:
+    empty ⇒ no-op; unknown station ⇒ KeyError; unequal lengths ⇒ InvalidSchedule; densify;
+    grow if `t + len > width`; block write. -/
 def updateSchedules (stations : List String) (m : Mat K) (t : Nat) (lastTs : Option Nat)
-    (sched : List (String × List K)) : Except Err (Mat K) :=
+    (sched : Sched K) : Except Err (Mat K) :=
   match sched with
   | [] => .ok m
   | (_, r0) :: _ =>
-    if sched.any (fun p => !stations.contains p.1) then .error .keyError
+    if unknownStation stations sched then .error .keyError
     else if ragged sched then .error .invalidSchedule
     else
       let len := r0.length
       let dense := densify stations sched len
       let m' :=
         if t + len ≤ m.width then m
-        else increaseWidth m (Nat.max (match lastTs with | some l => l + 1 | none => 0) (t + len))
-      .ok ⟨List.zipWith (fun row blk => writeRow row t blk) m'.rows dense, m'.width⟩
+        else increaseWidth m (growTarget t lastTs len)
+      .ok (writeBlock m' t dense)
+
+/-! ### what `run()` does with the matrix in every period -/
+
+/-- simulator.py:135-138: `get_last_timestamp() + 1` if the queue is not empty else `iteration + 1` -/
+def runWidth (t : Nat) (lastTs : Option Nat) : Nat :=
+  match lastTs with
+  | some l => l + 1
+  | none => t + 1
+
+/-- simulator.py:139 -/
+def runGrow (m : Mat K) (t : Nat) (lastTs : Option Nat) : Mat K :=
+  increaseWidth m (runWidth t lastTs)
+
+/-- charging_network.py:423-428: `pilots[station_number, i]` for every station, in station order;
+    `none` stands for numpy's `IndexError` (column `t` does not exist). -/
+def appliedColumn (m : Mat K) (t : Nat) : Option (List K) :=
+  m.rows.mapM (fun r => r[t]?)
+
+/-- A submission: `_update_schedules(sched)` called while `_iteration = t` and
+    `event_queue.get_last_timestamp() = lastTs`. -/
+structure Submission (K : Type) where
+  t : Nat
+  lastTs : Option Nat
+  sched : Sched K
+
+/-- state after a submission; a rejected one raises, i.e. produces no new state -/
+def submit (stations : List String) (m : Mat K) (s : Submission K) : Mat K :=
+  match updateSchedules stations m s.t s.lastTs s.sched with
+  | .ok m' => m'
+  | .error _ => m
+
+/-- One trip round the loop of `run()` as far as the pilot matrix is concerned. -/
+structure Period (K : Type) where
+  t : Nat
+  /-- `get_last_timestamp()` after this period's events have been processed -/
+  lastTs : Option Nat
+  /-- `some sched` iff the scheduler was called in this period -/
+  sched : Option (Sched K)
+
+inductive RunErr | sched (e : Err) | indexError
+  deriving DecidableEq, Repr
+
+/-- simulator.py:124-141: optional `_update_schedules`, growth, column `t` goes to the EVSEs.
+    Returns the new matrix and the applied column. -/
+def periodStep (stations : List String) (m : Mat K) (p : Period K) : Except RunErr (Mat K × List K) :=
+  let m1 : Except RunErr (Mat K) :=
+    match p.sched with
+    | none => .ok m
+    | some s =>
+      match updateSchedules stations m p.t p.lastTs s with
+      | .ok m' => .ok m'
+      | .error e => .error (.sched e)
+  match m1 with
+  | .error e => .error e
+  | .ok m1 =>
+    let m2 := runGrow m1 p.t p.lastTs
+    match appliedColumn m2 p.t with
+    | some col => .ok (m2, col)
+    | none => .error .indexError
+
+/-- all periods of a run; the log holds the applied column of every period -/
+def runPeriods (stations : List String) (m : Mat K) : List (Period K) → Except RunErr (Mat K × List (List K))
+  | [] => .ok (m, [])
+  | p :: ps =>
+    match periodStep stations m p with
+    | .error e => .error e
+    | .ok (m', col) =>
+      match runPeriods stations m' ps with
+      | .error e => .error e
+      | .ok (m'', cols) => .ok (m'', col :: cols)
+
+/-- the submissions made in a list of periods -/
+def subsOf (ps : List (Period K)) : List (Submission K) :=
+  ps.filterMap fun p => p.sched.map fun s => ⟨p.t, p.lastTs, s⟩
+
+/-! ### the specification of C04 -/
+
+/-- a schedule `_update_schedules` accepts and acts on: non-empty, known stations, equal lengths -/
+def accepted (stations : List String) (sched : Sched K) : Bool :=
+  !sched.isEmpty && !unknownStation stations sched && !ragged sched
+
+/-- submission `s` is accepted and speaks about period `τ` -/
+def covers (stations : List String) (s : Submission K) (τ : Nat) : Bool :=
+  accepted stations s.sched && decide (s.t ≤ τ) && decide (τ < s.t + schedLen s.sched)
+
+/-- what submission `s` says about station `st` in period `τ`: its entry, 0 if the station is omitted -/
+def valueOf (s : Submission K) (st : String) (τ : Nat) : K :=
+  match s.sched.lookup st with
+  | some row => row.getD (τ - s.t) 0
+  | none => 0
+
+/-- value given by the LATEST accepted submission covering `τ`, else `base` -/
+def pilotFrom (stations : List String) (base : K) (subs : List (Submission K)) (st : String) (τ : Nat) : K :=
+  match subs.reverse.find? (fun s => covers stations s τ) with
+  | some s => valueOf s st τ
+  | none => base
+
+/-- SPEC of C04: the pilot of station `st` in period `τ` after the submissions `subs`
+    (in the order they were made), starting from the all-zero matrix. -/
+def pilotAt (stations : List String) (subs : List (Submission K)) (st : String) (τ : Nat) : K :=
+  pilotFrom stations 0 subs st τ
 
 end
 end Acn.Pilots
